@@ -1632,6 +1632,8 @@ class SyncManager(Runnable):
             raise
 
     def handle_split_conflict(self, defer_ent, defer_side, replace_ent, replace_side):
+        # the peer entry found by check_disjoint_create may not have been refreshed since its last event
+        defer_ent.get_latest(sides=(defer_side,))
         if defer_ent[defer_side].otype == FILE:
             if not self.download_changed(defer_side, defer_ent):
                 return False
